@@ -70,6 +70,7 @@ func adminCases(c0cuid, c1cuid string) []adminCase {
 		cs = append(cs, adminCase{name: "patch:" + name, kind: "patch", patch: &model.PatchMessage{Collection: coll, Key: key, Json: js}})
 	}
 	pm("valid-existing", "col", "k1", `{"a":{"x":1},"b":[1,2]}`)
+	pm("document-created-without-operations", "col", "emptylog", `{"a":1,"b":2}`) // (the setup creates "emptylog" with the create bit and no operations)
 	pm("valid-new-key", "col", "fresh", `{"n":{"m":[true,"s",1.5]}}`)
 	pm("valid-same-as-stored", "col", "k1", `{"a":{"x":"p0"}}`)
 	pm("valid-empty-object", "col", "k1", `{}`)
@@ -167,6 +168,18 @@ func c16AdminCase(t *testing.T, name string) (res c16Result) {
 		if ac.name == "patch:valid-same-as-stored" {
 			ac.patch.Json = jsonStr(c0.dts["k1"].rep.doc.GetValue())
 		}
+		if ac.name == "patch:document-created-without-operations" {
+			// a datatype document with an empty log: a creation request that carries no operation at all
+			own := c0.dts["k1"].rep.dt.CreatePushPullPack()
+			pack := &model.PushPullPack{Key: "emptylog", DUID: "emptylogemptylog", Type: own.Type, Era: own.Era, Option: 0x01, CheckPoint: &model.CheckPoint{}}
+			req := model.NewPushPullMessage(0, &model.Client{CUID: c0.cuid, Collection: c0.coll}, pack)
+			callWithDeadline(func() {
+				ctx, cancel := gocontext.WithCancel(gocontext.Background())
+				defer cancel()
+				m.sys.Svc().ProcessPushPull(ctx, req)
+			})
+			m.drain()
+		}
 		time.Sleep(time.Millisecond)
 		before := m.sys.DB.Dump()
 		projBefore := map[string]string{}
@@ -205,6 +218,10 @@ func c16AdminCase(t *testing.T, name string) (res c16Result) {
 		m.drain()
 		after := m.sys.DB.Dump()
 		res.Outcome = fmt.Sprintf("err=%v changed=%v", err != nil, before != after)
+		if ac.kind == "patch" && err == nil && patchResp == nil {
+			res.Viol = viol("C16:request-answered-with-neither-response-nor-error:"+name, "the request %s returned neither a response nor an error", name)
+			return
+		}
 		if took >= 3*time.Second {
 			res.Viol = viol("C16:answered-only-after-a-lock-lease:"+name, "the lone request %s was answered after %v of virtual time (lock lease is 5s)", name, took)
 			return
@@ -285,6 +302,14 @@ func c16AdminCase(t *testing.T, name string) (res c16Result) {
 		if ac.kind == "create" || ac.kind == "reset" {
 			// administration goes on: two more collections can be created, and every collection has a number of its own
 			for _, later := range []string{"colLater1", "colLater2"} {
+				if later == "colLater2" {
+					// the server is stopped and started again over the same database before the second creation
+					m.sys.StopServer()
+					if serr := m.sys.StartServer(); serr != nil {
+						res.Viol = viol("C08:server-does-not-restart:"+name, "after the request %s the server does not start again: %v", name, serr)
+						return
+					}
+				}
 				if lerr := m.sys.MakeCollection(later); lerr != nil {
 					res.Viol = viol("C17:collection-cannot-be-created-after:"+name, "CreateCollection(%s) after the request %s: %v", later, name, lerr)
 					return
